@@ -261,4 +261,373 @@ theorem d5_exact_witness :
       .bytes [0x20, 0x01, 0x0d, 0xb8, 0, 0, 0, 0, 0, 0, 0, 0, 0, 0, 0, 1]),
     (⟨"destinationTransportPort", 11, .unsigned16, 0, 2⟩, .num 80)], by decide, by decide⟩
 
+/-! ## Write outcomes: the connection may fail a Write or take only part of the message
+
+  `ExpState.sendBuiltW` (Model/Exporter.lean) is SendSet with the outcome of its Write as a parameter;
+  with the outcome `ok` it IS `sendBuilt`, so every theorem above speaks about the same function. -/
+
+/-- with a complete Write, `sendBuiltW` is `sendBuilt` -/
+theorem sendBuiltW_ok (st : ExpState) (time : Nat) (s : SetB) :
+    st.sendBuiltW time s .ok = st.sendBuilt time s := by
+  unfold ExpState.sendBuiltW ExpState.sendBuilt
+  split
+  · rfl
+  · split
+    · rfl
+    · simp only [WriteOutcome.complete]
+      split <;> simp
+
+/-- under any outcome SendSet either behaves exactly as with a connection that never fails, or - the
+    message was built, the Write was not complete - it is an error that keeps the template table and
+    the domain and has advanced the counter of a data set -/
+theorem sendBuiltW_cases (st : ExpState) (time : Nat) (s : SetB) (w : WriteOutcome) :
+    st.sendBuiltW time s w = st.sendBuilt time s ∨
+    (∃ n m, (st.sendBuilt time s).2 = .ok n m ∧ w.complete m.length = false ∧
+      (st.sendBuiltW time s w).2 = .err ∧ (st.sendBuiltW time s w).1.templates = st.templates ∧
+      (st.sendBuiltW time s w).1.dom = st.dom ∧
+      (st.sendBuiltW time s w).1.seq = (if s.ty = .data then (st.seq + s.recs.length) % 4294967296 else st.seq)) := by
+  unfold ExpState.sendBuiltW ExpState.sendBuilt
+  split
+  · exact .inl rfl
+  · split
+    · exact .inl rfl
+    · simp only
+      split
+      · exact .inl rfl
+      · rename_i m hm
+        by_cases hc : w.complete m.length = true
+        · simp [hc]
+        · simp at hc
+          refine .inr ⟨m.length, m, rfl, hc, ?_⟩
+          simp [hc, SetB.updateLen]
+
+/-- SendSet reports success under the outcome `w` exactly when it would with a connection that never
+    fails AND `w` is a complete write of that message -/
+theorem sendBuiltW_ok_iff (st : ExpState) (time : Nat) (s : SetB) (w : WriteOutcome) (n : Nat) (m : Bytes) :
+    (st.sendBuiltW time s w).2 = .ok n m ↔ ((st.sendBuilt time s).2 = .ok n m ∧ w.complete m.length = true) := by
+  unfold ExpState.sendBuiltW ExpState.sendBuilt
+  split
+  · simp
+  · split
+    · simp
+    · simp only
+      split
+      · simp
+      · rename_i m' hm
+        by_cases hc : w.complete m'.length = true
+        · simp [hc]
+          intro _ h; subst h; exact hc
+        · simp at hc
+          simp [hc]
+          intro _ h; subst h; simp [hc]
+
+theorem sendBuiltW_state_of_ok (st : ExpState) (time : Nat) (s : SetB) (w : WriteOutcome) (n : Nat) (m : Bytes)
+    (h : (st.sendBuiltW time s w).2 = .ok n m) : st.sendBuiltW time s w = st.sendBuilt time s := by
+  rcases sendBuiltW_cases st time s w with h1 | ⟨_, _, _, _, herr, _⟩
+  · exact h1
+  · rw [herr] at h; simp at h
+
+
+/-- a Write that fails, or that is short, makes SendSet an error that records NOTHING: whatever the
+    state, the set (a template set in particular) and the outcome, if the outcome is not a complete
+    write of the message SendSet built, the result is an error and the template table and the domain
+    are what they were; the counter of a data set has already been advanced (atomic.AddUint32 precedes
+    the Write) -/
+theorem failed_write_registers_nothing (st : ExpState) (time : Nat) (s : SetB) (w : WriteOutcome)
+    (hw : ∀ n m, (st.sendBuilt time s).2 = .ok n m → w.complete m.length = false) :
+    (st.sendBuiltW time s w).2 = .err ∧ (st.sendBuiltW time s w).1.templates = st.templates ∧
+    (st.sendBuiltW time s w).1.dom = st.dom ∧
+    ((∃ n m, (st.sendBuilt time s).2 = .ok n m) →
+      (st.sendBuiltW time s w).1.seq = (if s.ty = .data then (st.seq + s.recs.length) % 4294967296 else st.seq)) := by
+  rcases sendBuiltW_cases st time s w with h1 | ⟨n, m, hok, _, herr, ht, hdm, hsq⟩
+  · rw [h1]
+    cases hr : (st.sendBuilt time s).2 with
+    | ok n m =>
+      have := (sendBuiltW_ok_iff st time s w n m).1 (by rw [h1]; exact hr)
+      rw [hw n m hr] at this
+      simp at this
+    | err =>
+      have he : st.sendBuilt time s = ((st.sendBuilt time s).1, .err) := by rw [← hr]
+      obtain ⟨h2, h3⟩ := error_leaves_state st _ time s he
+      exact ⟨rfl, h2, h3, fun ⟨n, m, h⟩ => by simp at h⟩
+  · exact ⟨herr, ht, hdm, fun _ => hsq⟩
+
+/-- the two instances: a Write error (ECONNREFUSED of a connected UDP socket, a closed pipe, ...) ... -/
+theorem write_error_registers_nothing (st : ExpState) (time : Nat) (s : SetB) :
+    (st.sendBuiltW time s .fail).2 = .err ∧ (st.sendBuiltW time s .fail).1.templates = st.templates :=
+  let h := failed_write_registers_nothing st time s .fail (fun _ _ _ => rfl)
+  ⟨h.1, h.2.1⟩
+
+/-- ... and a Write that took only `k` bytes of a longer message and reported no error -/
+theorem short_write_registers_nothing (st : ExpState) (time : Nat) (s : SetB) (k : Nat)
+    (hk : ∀ n m, (st.sendBuilt time s).2 = .ok n m → k < m.length) :
+    (st.sendBuiltW time s (.short k)).2 = .err ∧ (st.sendBuiltW time s (.short k)).1.templates = st.templates :=
+  let h := failed_write_registers_nothing st time s (.short k) (fun n m hm => by
+    have := hk n m hm
+    simp [WriteOutcome.complete]; omega)
+  ⟨h.1, h.2.1⟩
+
+/-- what reaches the connection is a prefix of the message SendSet built: all of it, nothing (failed
+    Write, or a send refused before the Write), or the first `k` bytes -/
+theorem wroteW_prefix (st : ExpState) (time : Nat) (s : SetB) (w : WriteOutcome) :
+    (st.wroteW time s w = [] ∧ (w = .fail ∨ (st.sendBuilt time s).2 = .err)) ∨
+    ∃ n m, (st.sendBuilt time s).2 = .ok n m ∧
+      ((w = .ok ∧ st.wroteW time s w = m) ∨ ∃ k, w = .short k ∧ st.wroteW time s w = m.take k) := by
+  unfold ExpState.wroteW
+  cases hr : (st.sendBuilt time s).2 with
+  | err => exact .inl ⟨rfl, .inr rfl⟩
+  | ok n m =>
+    cases w with
+    | ok => exact .inr ⟨n, m, rfl, .inl ⟨rfl, rfl⟩⟩
+    | fail => exact .inl ⟨rfl, .inl rfl⟩
+    | short k => exact .inr ⟨n, m, rfl, .inr ⟨k, rfl, rfl⟩⟩
+
+/-- a send that SendSet refuses on its own (type, sanity, size) writes nothing under any outcome, and
+    is the same refusal: the outcome of a Write that is never made does not matter -/
+theorem refusal_precedes_write (st : ExpState) (time : Nat) (s : SetB) (w : WriteOutcome)
+    (h : (st.sendBuilt time s).2 = .err) :
+    st.sendBuiltW time s w = st.sendBuilt time s ∧ st.wroteW time s w = [] := by
+  refine ⟨?_, by simp [ExpState.wroteW, h]⟩
+  rcases sendBuiltW_cases st time s w with h1 | ⟨n, m, hok, _⟩
+  · exact h1
+  · rw [h] at hok; simp at hok
+
+/-! ### History form with write outcomes -/
+
+/-- a session: every SendSet with its export time and the outcome of its Write -/
+def sendAllW : ExpState → List (Nat × SetB × WriteOutcome) → ExpState
+  | st, [] => st
+  | st, x :: rest => sendAllW (st.sendBuiltW x.1 x.2.1 x.2.2).1 rest
+
+/-- one SendSet under any outcome: an entry of the table afterwards was there before, or the call was
+    a send of a template set that reported success - i.e. whose Write was complete - and one of
+    whose records defines it -/
+theorem stepW_templates (st : ExpState) (time : Nat) (s : SetB) (w : WriteOutcome) (x : Nat × TplInfo)
+    (hx : x ∈ (st.sendBuiltW time s w).1.templates) :
+    x ∈ st.templates ∨ (s.ty = .template ∧
+      (∃ n m, (st.sendBuiltW time s w).2 = .ok n m ∧ w.complete m.length = true) ∧
+      ∃ r' ∈ s.recs, r'.tid = x.1 ∧ x.2.fieldCount = r'.elems.length) := by
+  rcases sendBuiltW_cases st time s w with h1 | ⟨_, _, _, _, _, ht, _⟩
+  · rw [h1] at hx
+    have hstep := step_templates st (st.sendBuilt time s).1 time s (st.sendBuilt time s).2 rfl x hx
+    rcases hstep with h | ⟨hty, hok, hr⟩
+    · exact .inl h
+    · refine .inr ⟨hty, ?_, hr⟩
+      cases hres : (st.sendBuilt time s).2 with
+      | err => rw [hres] at hok; simp [C08.isOk] at hok
+      | ok n m =>
+        have h2 : (st.sendBuiltW time s w).2 = .ok n m := by rw [h1]; exact hres
+        exact ⟨n, m, h2, ((sendBuiltW_ok_iff st time s w n m).1 h2).2⟩
+  · rw [ht] at hx; exact .inl hx
+
+theorem sessionW_templates (pre : List (Nat × SetB × WriteOutcome)) (st0 : ExpState) (x : Nat × TplInfo)
+    (hx : x ∈ (sendAllW st0 pre).templates) :
+    x ∈ st0.templates ∨ ∃ pre1 tt t wt pre2, pre = pre1 ++ (tt, t, wt) :: pre2 ∧ t.ty = .template ∧
+      (∃ n m, ((sendAllW st0 pre1).sendBuiltW tt t wt).2 = .ok n m ∧ wt.complete m.length = true) ∧
+      ∃ r' ∈ t.recs, r'.tid = x.1 ∧ x.2.fieldCount = r'.elems.length := by
+  induction pre generalizing st0 with
+  | nil => exact .inl hx
+  | cons p rest ih =>
+    obtain ⟨tt, s, w⟩ := p
+    simp only [sendAllW] at hx
+    rcases ih _ hx with h | ⟨pre1, tt', t, wt, pre2, hp, ht, hok, hr⟩
+    · rcases stepW_templates st0 tt s w x h with h | ⟨ht, hok, hr⟩
+      · exact .inl h
+      · exact .inr ⟨[], tt, s, w, rest, rfl, ht, hok, hr⟩
+    · exact .inr ⟨(tt, s, w) :: pre1, tt', t, wt, pre2, by rw [hp]; rfl, ht, hok, hr⟩
+
+/-- `data_only_after_template_sent` with the connection in the picture: in ANY sequence of SendSet
+    calls, each with an arbitrary outcome of its Write (complete, failed, short), starting from an empty
+    template table, a data set that is transmitted (SendSet reports success) has, for every record, a
+    template set EARLIER in the sequence whose Write was COMPLETE - SendSet reported success for it
+    under its outcome - containing a template record with that id and exactly that many fields.
+    A template whose Write failed (the ECONNREFUSED of seeded change 1) does not count. -/
+theorem data_only_after_template_WRITTEN (st0 : ExpState) (h0 : st0.templates = [])
+    (pre : List (Nat × SetB × WriteOutcome)) (time : Nat) (s : SetB) (w : WriteOutcome)
+    (n : Nat) (m : Bytes) (hd : s.ty = .data)
+    (h : ((sendAllW st0 pre).sendBuiltW time s w).2 = .ok n m) :
+    ∀ r ∈ s.recs, ∃ pre1 tt t wt pre2, pre = pre1 ++ (tt, t, wt) :: pre2 ∧ t.ty = .template ∧
+      (∃ n' m', ((sendAllW st0 pre1).sendBuiltW tt t wt).2 = .ok n' m' ∧ wt.complete m'.length = true) ∧
+      ∃ r' ∈ t.recs, r'.tid = r.tid ∧ r'.elems.length = r.fieldCount := by
+  intro r hr
+  have hs := ((sendBuiltW_ok_iff _ time s w n m).1 h).1
+  have he : (sendAllW st0 pre).sendBuilt time s = (((sendAllW st0 pre).sendBuilt time s).1, .ok n m) := by rw [← hs]
+  obtain ⟨_, ti, hti, hfc, _⟩ := data_requires_registered_template _ _ time s n m hd he r hr
+  unfold ExpState.template at hti
+  cases hf : (sendAllW st0 pre).templates.find? (·.1 == r.tid) with
+  | none => simp [hf] at hti
+  | some x =>
+    simp [hf] at hti
+    have hmem := List.mem_of_find?_eq_some hf
+    have hkey := List.find?_some hf
+    simp at hkey
+    rcases sessionW_templates pre st0 x hmem with h | ⟨pre1, tt, t, wt, pre2, hp, ht, hok, r', hr', h1, h2⟩
+    · rw [h0] at h; simp at h
+    · exact ⟨pre1, tt, t, wt, pre2, hp, ht, hok, r', hr', by rw [h1, hkey], by rw [← h2, hti, hfc]⟩
+
+/-- with every Write complete the session is the old one -/
+theorem sendAllW_ok (time : Nat) (st0 : ExpState) (pre : List SetB) :
+    sendAllW st0 (pre.map fun s => (time, s, .ok)) = (C08.sendAll time st0 pre).1 := by
+  induction pre generalizing st0 with
+  | nil => rfl
+  | cons s rest ih => simp only [List.map_cons, sendAllW, C08.sendAll, sendBuiltW_ok]; exact ih _
+
+/-! ### Non-vacuity: the session of seeded change 1 in the model -/
+
+def wTplRec : Rec := { isTemplate := true, tid := 256, fieldCount := 1, elems := [(C08.ieU8, .num 0)], bytes := [1, 0, 0, 1, 0, 4, 0, 1] }
+def wTplSet : SetB := { header := [0, 2, 0, 0], ty := .template, recs := [wTplRec], length := 12 }
+def wDataSet : SetB := C08.dataSet 1
+
+/-- a template set whose Write fails, then a data set for it: refused (nothing recorded) ... -/
+example : ((sendAllW {} [(0, wTplSet, .fail)]).sendBuiltW 0 wDataSet .ok).2 = .err := by decide
+/-- ... also when the Write was short by one byte ... -/
+example : ((sendAllW {} [(0, wTplSet, .short 27)]).sendBuiltW 0 wDataSet .ok).2 = .err := by decide
+/-- ... and after a re-send whose Write is complete the same data set IS transmitted: the hypotheses of
+    `data_only_after_template_WRITTEN` are satisfiable, and its witness is the second send, not the first -/
+example : C08.isOk ((sendAllW {} [(0, wTplSet, .fail), (0, wTplSet, .ok)]).sendBuiltW 0 wDataSet .ok).2 = true := by decide
+example : C08.isOk (({} : ExpState).sendBuiltW 0 wTplSet .ok).2 = true ∧ (({} : ExpState).sendBuiltW 0 wTplSet .fail).2 = .err ∧
+    (({} : ExpState).sendBuiltW 0 wTplSet (.short 28)).2 = (({} : ExpState).sendBuiltW 0 wTplSet .ok).2 := by decide
+/-- a data set whose Write fails has advanced the counter all the same -/
+example : ((sendAllW {} [(0, wTplSet, .ok)]).sendBuiltW 0 wDataSet .fail) =
+    ({ seq := 1, templates := [(256, { fieldCount := 1, minLen := 1 })] }, .err) := by decide
+
+/-! ## JSON mode (ExporterInput.SendJSONRecord) -/
+
+/-- `ExpState.refuses` IS the sanity condition of `sendBuilt`: a set it refuses is an error of the IPFIX
+    path in every state, before any message is built, and leaves the state alone -/
+theorem refuses_is_ipfix_refusal (st : ExpState) (time : Nat) (s : SetB) (h : st.refuses s = true) :
+    st.sendBuilt time s = (st, .err) := by
+  unfold ExpState.refuses at h
+  unfold ExpState.sendBuilt
+  split at h
+  · rename_i hty; simp [hty]
+  · rename_i hty; simp [hty, h]
+  · simp at h
+
+/-- JSON mode refuses what IPFIX mode refuses: a set refused by `sendBuilt`'s sanity condition
+    (Undefined type; a data set with a record for another template than the Set ID's, for an unknown
+    template, with another field count than the template's, or shorter than its minimum length) is
+    refused by `sendBuiltJ` too, for every state - the skipped field-count check of seeded change 2
+    is not this function -/
+theorem json_mode_refuses_like_ipfix (st : ExpState) (time : Nat) (s : SetB) (h : st.refuses s = true) :
+    (st.sendBuilt time s).2 = .err ∧ ∃ k, (st.sendBuiltJ s).2 = .err k := by
+  refine ⟨by rw [refuses_is_ipfix_refusal st time s h], 0, ?_⟩
+  unfold ExpState.refuses at h
+  unfold ExpState.sendBuiltJ
+  split at h
+  · rename_i hty; simp [hty]
+  · rename_i hty; simp [hty, h]
+  · simp at h
+
+/-- ... and such a refusal writes nothing (zero calls of Write) and changes nothing -/
+theorem json_refusal_writes_nothing (st : ExpState) (s : SetB) (h : st.refuses s = true) :
+    st.sendBuiltJ s = (st, .err 0) ∧ st.writesJ s = 0 := by
+  have : st.sendBuiltJ s = (st, .err 0) := by
+    unfold ExpState.refuses at h
+    unfold ExpState.sendBuiltJ
+    split at h
+    · rename_i hty; simp [hty]
+    · rename_i hty; simp [hty, h]
+    · simp at h
+  exact ⟨this, by simp [ExpState.writesJ, this]⟩
+
+theorem jsonWrites_le (l : List Rec) : jsonWrites l ≤ l.length := by
+  induction l with
+  | nil => simp [jsonWrites]
+  | cons r t ih => simp only [jsonWrites]; split <;> simp <;> omega
+
+/-- conversely: whenever JSON mode calls Write at all (with or without an error afterwards), the set is
+    a data set every record of which names the Set ID's template, recorded by the exporter, with that
+    template's field count and at least its minimum length - `data_requires_registered_template` for
+    the JSON path; and there is at most one Write per record -/
+theorem json_writes_only_sane_data (st : ExpState) (s : SetB) (hk : 0 < st.writesJ s) :
+    s.ty = .data ∧ st.writesJ s ≤ s.recs.length ∧ ∀ r ∈ s.recs, r.tid = s.setId ∧
+      ∃ t, st.template r.tid = some t ∧ r.fieldCount = t.fieldCount ∧ t.minLen ≤ r.bytes.length := by
+  cases hty : s.ty with
+  | undefined => simp [ExpState.writesJ, ExpState.sendBuiltJ, hty] at hk
+  | template => simp [ExpState.writesJ, ExpState.sendBuiltJ, hty] at hk
+  | other => simp [ExpState.writesJ, ExpState.sendBuiltJ, hty] at hk
+  | data =>
+    by_cases hs : (s.recs.all fun r => r.tid == s.setId && st.sane r) = true
+    · refine ⟨rfl, ?_, ?_⟩
+      · by_cases hj : s.recs.all jsonRecOK = true
+        · simp [ExpState.writesJ, ExpState.sendBuiltJ, hty, hs, hj]
+        · simp only [ExpState.writesJ, ExpState.sendBuiltJ, hty, hs, hj]
+          exact jsonWrites_le _
+      · simp at hs
+        intro r hr
+        obtain ⟨htid, this⟩ := hs r hr
+        refine ⟨htid, ?_⟩
+        unfold ExpState.sane at this
+        split at this
+        · simp at this
+        · rename_i t ht
+          simp at this
+          exact ⟨t, ht, this.1, by omega⟩
+    · simp [ExpState.writesJ, ExpState.sendBuiltJ, hty, hs] at hk
+
+theorem register_seq_dom (st : ExpState) (id : Nat) (t : TplInfo) :
+    (st.register id t).seq = st.seq ∧ (st.register id t).dom = st.dom := by
+  unfold ExpState.register; split <;> exact ⟨rfl, rfl⟩
+
+theorem foldl_register_seq_dom (l : List Rec) (st : ExpState) :
+    (l.foldl (fun acc r => acc.register r.tid
+      { fieldCount := r.elems.length, minLen := minDataRecLen (r.elems.map (·.1)) }) st).seq = st.seq ∧
+    (l.foldl (fun acc r => acc.register r.tid
+      { fieldCount := r.elems.length, minLen := minDataRecLen (r.elems.map (·.1)) }) st).dom = st.dom := by
+  induction l generalizing st with
+  | nil => exact ⟨rfl, rfl⟩
+  | cons r t ih =>
+    simp only [List.foldl_cons]
+    obtain ⟨h1, h2⟩ := ih (st.register r.tid { fieldCount := r.elems.length, minLen := minDataRecLen (r.elems.map (·.1)) })
+    obtain ⟨h3, h4⟩ := register_seq_dom st r.tid { fieldCount := r.elems.length, minLen := minDataRecLen (r.elems.map (·.1)) }
+    exact ⟨h1.trans h3, h2.trans h4⟩
+
+/-- JSON mode never touches the sequence counter or the domain; the template table changes only by a
+    template set (which writes nothing), with entries its records define; a failing first Write
+    (`sendBuiltJW`) changes no more than that -/
+theorem json_state (st : ExpState) (s : SetB) :
+    (st.sendBuiltJ s).1.seq = st.seq ∧ (st.sendBuiltJ s).1.dom = st.dom ∧
+    (∀ x ∈ (st.sendBuiltJ s).1.templates, x ∈ st.templates ∨
+      (s.ty = .template ∧ (st.sendBuiltJ s).2 = .ok 0 ∧ ∃ r' ∈ s.recs, r'.tid = x.1 ∧ x.2.fieldCount = r'.elems.length)) ∧
+    ∀ w, (st.sendBuiltJW s w).1 = (st.sendBuiltJ s).1 := by
+  refine ⟨?_, ?_, ?_, ?_⟩
+  · unfold ExpState.sendBuiltJ
+    split
+    · rfl
+    · split <;> (try split) <;> rfl
+    · exact (foldl_register_seq_dom _ _).1
+    · rfl
+  · unfold ExpState.sendBuiltJ
+    split
+    · rfl
+    · split <;> (try split) <;> rfl
+    · exact (foldl_register_seq_dom _ _).2
+    · rfl
+  · intro x hx
+    unfold ExpState.sendBuiltJ at hx ⊢
+    split at hx
+    · exact .inl hx
+    · split at hx
+      · exact .inl hx
+      · split at hx <;> exact .inl hx
+    · rename_i hty
+      rcases foldl_register_mem _ _ _ hx with h | h
+      · exact .inl h
+      · exact .inr ⟨hty, by simp, h⟩
+    · exact .inl hx
+  · intro w
+    unfold ExpState.sendBuiltJW
+    split <;> simp_all
+
+/-- non-vacuity, and seeded change 2 in the model: with template 256 (one field) recorded, a record
+    with TWO fields is refused in JSON mode as in IPFIX mode, a record with one field is written -/
+def jState : ExpState := { templates := [(256, { fieldCount := 1, minLen := 1 })] }
+def jTwoRec : Rec := { isTemplate := false, tid := 256, fieldCount := 2, elems := [(C08.ieU8, .num 6), (C08.ieU8, .num 7)], bytes := [6, 7] }
+def jTwoFields : SetB := { header := [1, 0, 0, 0], ty := .data, recs := [jTwoRec], length := 6 }
+example : jState.refuses jTwoFields = true ∧ jState.sendBuiltJ jTwoFields = (jState, .err 0) ∧
+    (jState.sendBuilt 0 jTwoFields).2 = .err ∧
+    jState.refuses (C08.dataSet 3) = false ∧ jState.sendBuiltJ (C08.dataSet 3) = (jState, .ok 3) ∧
+    (({} : ExpState).sendBuiltJ wTplSet) = (jState, .ok 0) := by decide
+
 end Ipfix.C09
